@@ -217,3 +217,9 @@ __CPROVER_requires(ALLOC(dst))
 __CPROVER_assigns(tok[dst])
 __CPROVER_ensures(tok[dst] == tok[src])
 ;
+void vec_swap(vec_t a, vec_t b)                /* std::swap of two Vector<double> */
+__CPROVER_requires(VALID(a) && VALID(b) && LEVEL_OF(a) == LEVEL_OF(b) && a != b)
+__CPROVER_requires(ALLOC(a) && ALLOC(b))
+__CPROVER_assigns(tok[a], tok[b])
+__CPROVER_ensures(tok[a] == __CPROVER_old(tok[b]) && tok[b] == __CPROVER_old(tok[a]))
+;
